@@ -15,7 +15,9 @@
    sizeof(buf) = MUGGLE_LOG_MSG_MAX_LEN, re-extracted from the headers on every
    run (gen/Params_C17.v).
    Not modelled (oracle / environment): failure of fopen/rename/remove, fwrite
-   short counts, snprintf failure, DST (local time = UTC + fixed offset). *)
+   short counts, snprintf failure.  A time zone is a function instant -> offset
+   (zone_off: an initial offset and a finite list of transitions), so daylight
+   saving switches in either direction are inside the model. *)
 From Coq Require Export List ZArith Lia Bool.
 Export ListNotations.
 Local Open Scope Z_scope.
@@ -199,8 +201,8 @@ Definition r_run_log (B : Z) (h : rh) (ops : list rop) : rh := fold_left (r_step
 
 (* ---------------------------------------------------------------------- *)
 (* calendar: struct tm from seconds since the epoch (proleptic Gregorian, no
-   leap seconds); validated against gmtime_r / localtime_r by the
-   correspondence run, not proved *)
+   leap seconds); proved to be that calendar for every day number in Z in
+   C17/ProofsCal.v; compared with gmtime_r / localtime_r by the correspondence run *)
 Record tm := { tm_sec : Z; tm_min : Z; tm_hour : Z; tm_mday : Z; tm_mon : Z; tm_year : Z }.
 
 (* days since 1970-01-01 -> (year, month 1..12, day 1..31) *)
@@ -223,8 +225,21 @@ Definition gmtime (sec : Z) : tm :=
   {| tm_sec := sod mod 60; tm_min := (sod / 60) mod 60; tm_hour := sod / 3600;
      tm_mday := d; tm_mon := m - 1; tm_year := y - 1900 |}.
 
-(* local time of a fixed-offset zone, tzoff seconds east of UTC *)
-Definition localtime (tzoff sec : Z) : tm := gmtime (sec + tzoff).
+(* a time zone: the offset (seconds east of UTC) in force at each instant.
+   z_base is in force before the first transition; a transition (t, o) puts
+   offset o in force from instant t on (the list is in order of time; the last
+   entry with t <= s wins).  A fixed-offset zone has no transition; a zone with
+   daylight saving has two per year (tzset's POSIX rule, expanded by the harness
+   for the years a case touches). *)
+Record zone := { z_base : Z; z_trans : list (Z * Z) }.
+Definition zone_off (z : zone) (s : Z) : Z :=
+  fold_left (fun cur tr => if fst tr <=? s then snd tr else cur) (z_trans z) (z_base z).
+Definition fixed_zone (off : Z) : zone := {| z_base := off; z_trans := [] |}.
+
+(* localtime_r: the civil time of the instant on the zone's clock, with the
+   offset in force AT that instant (so the hour that a fall-back switch repeats
+   is produced twice, the hour a spring-forward switch skips never) *)
+Definition localtime (z : zone) (sec : Z) : tm := gmtime (sec + zone_off z sec).
 
 (* ---------------------------------------------------------------------- *)
 (* time-rotating handler *)
@@ -257,11 +272,11 @@ Record th := {
   t_last_sec : Z;
   t_last_tm : tm;
   t_local : bool;              (* use_local_time *)
-  t_tzoff : Z                  (* environment: offset of the local zone *)
+  t_zone : zone                (* environment: the zone of the process (TZ) *)
 }.
 
-Definition brokendown (local : bool) (tzoff sec : Z) : tm :=
-  if local then localtime tzoff sec else gmtime sec.
+Definition brokendown (local : bool) (zn : zone) (sec : Z) : tm :=
+  if local then localtime zn sec else gmtime sec.
 
 (* the comparison of muggle_log_file_time_rot_handler_detect: true = same period *)
 Definition same_period (u : tunit) (md : Z) (c l : tm) : bool :=
@@ -277,13 +292,13 @@ Definition same_period (u : tunit) (md : Z) (c l : tm) : bool :=
 
 Definition t_set_last (h : th) (sec : Z) (t : tm) : th :=
   {| t_fs := t_fs h; t_open := t_open h; t_unit := t_unit h; t_mod := t_mod h;
-     t_last_sec := sec; t_last_tm := t; t_local := t_local h; t_tzoff := t_tzoff h |}.
+     t_last_sec := sec; t_last_tm := t; t_local := t_local h; t_zone := t_zone h |}.
 
 (* muggle_log_file_time_rot_handler_detect; sec = msg->ts.tv_sec, or time(NULL) when 0 *)
 Definition t_detect (h : th) (sec : Z) : th * bool :=
   if t_last_sec h >=? sec then (h, false)
   else
-    let cur := brokendown (t_local h) (t_tzoff h) sec in
+    let cur := brokendown (t_local h) (t_zone h) sec in
     let need := negb (same_period (t_unit h) (t_mod h) cur (t_last_tm h)) in
     (t_set_last h sec cur, need).
 
@@ -291,13 +306,13 @@ Definition t_detect (h : th) (sec : Z) : th * bool :=
 Definition t_rotate (h : th) : th :=
   let n := t_filename (t_unit h) (t_last_tm h) in
   {| t_fs := fs_open_append tname_eqb n (t_fs h); t_open := Some n; t_unit := t_unit h; t_mod := t_mod h;
-     t_last_sec := t_last_sec h; t_last_tm := t_last_tm h; t_local := t_local h; t_tzoff := t_tzoff h |}.
+     t_last_sec := t_last_sec h; t_last_tm := t_last_tm h; t_local := t_local h; t_zone := t_zone h |}.
 
 (* muggle_log_file_time_rot_handler_init (repaired: the zone mode of the
    argument decides the first broken-down time); clock = time(NULL) *)
-Definition t_init (fs : fsys tname) (clock : Z) (u : tunit) (md : Z) (local : bool) (tzoff : Z) : th :=
+Definition t_init (fs : fsys tname) (clock : Z) (u : tunit) (md : Z) (local : bool) (tzoff : zone) : th :=
   t_rotate {| t_fs := fs; t_open := None; t_unit := u; t_mod := md; t_last_sec := clock;
-              t_last_tm := brokendown local tzoff clock; t_local := local; t_tzoff := tzoff |}.
+              t_last_tm := brokendown local tzoff clock; t_local := local; t_zone := tzoff |}.
 
 Definition eff_ts (clock : Z) (m : msg) : Z := if m_ts m =? 0 then clock else m_ts m.
 
@@ -317,14 +332,14 @@ Definition t_write (h : th) (clock : Z) (m : msg) : th * Z :=
     | None => (h2, m_len m)
     | Some n =>
       ({| t_fs := fs_append tname_eqb n line (t_fs h2); t_open := t_open h2; t_unit := t_unit h2; t_mod := t_mod h2;
-          t_last_sec := t_last_sec h2; t_last_tm := t_last_tm h2; t_local := t_local h2; t_tzoff := t_tzoff h2 |},
+          t_last_sec := t_last_sec h2; t_last_tm := t_last_tm h2; t_local := t_local h2; t_zone := t_zone h2 |},
        m_len m)
     end
   end.
 
 (* restart = destroy (fclose) + init with the same configuration *)
 Definition t_restart (h : th) (clock : Z) : th :=
-  t_init (t_fs h) clock (t_unit h) (t_mod h) (t_local h) (t_tzoff h).
+  t_init (t_fs h) clock (t_unit h) (t_mod h) (t_local h) (t_zone h).
 
 Inductive top := TWrite (clock : Z) (m : msg) | TRestart (clock : Z).
 
@@ -434,8 +449,8 @@ Definition rg_run (B : Z) := g_run r_fs (rg_write B) rg_reinit.
 (* time-rotating handler likewise; a write carries the clock *)
 Definition tg_write (B : Z) (h : th) (w : Z * msg) : th := fst (t_log B h (fst w) (snd w)).
 Definition tg_reinit (h : th) (fs : fsys tname) (clock : Z) : th :=
-  t_init fs clock (t_unit h) (t_mod h) (t_local h) (t_tzoff h).
-Definition tg_start (fs0 : gfsys tname) (cwd : Z) (p : parg) (clock : Z) (u : tunit) (md : Z) (local : bool) (tz : Z)
+  t_init fs clock (t_unit h) (t_mod h) (t_local h) (t_zone h).
+Definition tg_start (fs0 : gfsys tname) (cwd : Z) (p : parg) (clock : Z) (u : tunit) (md : Z) (local : bool) (tz : zone)
   : gst tname th := g_start fs0 cwd p (fun fs => t_init fs clock u md local tz).
 Definition tg_step (B : Z) := g_step t_fs (tg_write B) tg_reinit.
 Definition tg_run (B : Z) := g_run t_fs (tg_write B) tg_reinit.
